@@ -487,7 +487,13 @@ def run(ctx):
     viols = [Violation(**v) for o in outs for v in o[1]]
     samples = [s for o in outs for s in o[2]][:3]
     outcomes = sorted(set(x for o in outs for x in o[3]))
+    from . import c05_unwind
+
+    un, uv, ucov = c05_unwind.run_part(ctx)
+    viols += uv
+    stats["programs"] += un
     cov = dict(
+        unusual_endings=ucov,
         states=stats["observations"],
         transitions=stats["statements"],
         traces_validated_against_impl=stats["programs"],
@@ -497,12 +503,16 @@ def run(ctx):
         calls_and_blocks=stats["calls"],
         distinct_outcomes=outcomes,
         exhaustive=True,
-        bounds=f"nesting depth 2; pre in {len(PRE)} / post in {len(POST)} statements; innermost body in {len(ATOMS)} atoms; kinds x exits = {len(compounds(ctx.tier))} compounds ({ctx.tier})",
+        bounds=f"unusual endings (vf/checks/c05_unwind.py): 4 constructs x 3 enclosing situations x (7 hostile exception kinds + RecursionError from {ucov['recursion_start_offsets']} stack offsets x pre/post/mixed order); nesting depth 2; pre in {len(PRE)} / post in {len(POST)} statements; innermost body in {len(ATOMS)} atoms; kinds x exits = {len(compounds(ctx.tier))} compounds ({ctx.tier})",
     )
     return Result(level="model_checking", coverage=cov, violations=viols, assumptions=["reference: stack-of-dicts interpreter (RefInterp in this file)", "generator / coroutine bodies are driven immediately after the call, in the caller's context"])
 
 
 def replay(rep):
+    if rep.get("kind") == "unwind":
+        from . import c05_unwind
+
+        return c05_unwind.replay_one(rep)
     common.bind_repo()
     warnings.simplefilter("ignore")
     env = make_env()
